@@ -172,3 +172,15 @@ Proof.
       * split; [|reflexivity]. intros _. rewrite Z.gtb_ltb in E1. apply Z.ltb_ge in E1.
         destruct (b + s <? 2 ^ 64) eqn:E2; [eauto|]. apply Z.ltb_ge in E2. lia.
 Qed.
+
+(* ---- the range-map crate (version of Cargo.lock), as generated from its source ---- *)
+Lemma g_range_map_eq :
+  (forall s e, g_range_new s e = if s >? e then Panic PANIC_G_RANGE_NEW else Ret (s, e)) /\
+  (forall r x, g_contains r x = contains r x) /\
+  (forall a b, g_intersects a b = intersects a b) /\
+  (forall r x, g_range_cmp_pt r x = range_cmp_pt r x) /\
+  (forall (V : Type) (eqb : V -> V -> bool) st rv, g_norm_step eqb st rv = norm_step eqb st rv).
+Proof.
+  split; [reflexivity|]. split; [reflexivity|]. split; [|split; reflexivity].
+  intros a b. unfold g_intersects, intersects. rewrite Z.geb_leb. reflexivity.
+Qed.
